@@ -1045,7 +1045,7 @@ Example any_roundtrip_ex :
   unm pf0 (length (flatten ex_any)) default_opts [] TAny (GAny None) (flatten ex_any ++ [T KBool (VBool false)])
     = Ok (ex_any_g, [T KBool (VBool false)]) /\
   marshal default_opts TAny ex_any_g = Ok (flatten ex_any).
-Proof. repeat split; vm_compute; reflexivity. Qed.
+Proof. split; [|split; [|split]]; vm_compute; reflexivity. Qed.
 
 (* the hypotheses of the rejection theorems are satisfiable *)
 Example any_rejects_nil_field_ex :
@@ -1054,7 +1054,7 @@ Example any_rejects_nil_field_ex :
   existsb (fun s => bytes_eqb s [66]) (field_names pre) = false /\
   unm pf0 20 default_opts [] TAny (GAny None)
     (T KObject VNone :: flat_map flatten pre ++ [T KString (VStr [66]); T KNil VNone; T KObjectEnd VNone]) = Err EEnd.
-Proof. repeat split; vm_compute; reflexivity. Qed.
+Proof. split; [|split; [|split]]; vm_compute; reflexivity. Qed.
 
 Example any_rejects_composite_key_ex :
   any_okb (Comp KArray KArrayEnd []) = true /\
@@ -1068,7 +1068,7 @@ Example any_rejects_big_tuple_ex :
   unm pf0 200 default_opts [] TAny (GAny None) (flatten (Comp KTuple KTupleEnd items)) = Err ETooMany /\
   exists g, unm pf0 200 default_opts [] TAny (GAny None)
               (flatten (Comp KTuple KTupleEnd (repeat (Leaf (T KNil VNone)) 50))) = Ok (g, []).
-Proof. repeat split; try (vm_compute; reflexivity). eexists. vm_compute. reflexivity. Qed.
+Proof. split; [|split]; [vm_compute; reflexivity|vm_compute; reflexivity|]. eexists. vm_compute. reflexivity. Qed.
 
 Example any_rejects_tokens_ex :
   unm pf0 20 default_opts [] TAny (GAny None) [T KLiteral (VStr [49])] = Err EBadTarget /\
@@ -1077,16 +1077,18 @@ Example any_rejects_tokens_ex :
   unm pf0 20 default_opts [] TAny (GAny None) [T KRef (VBytes [1])] = Err EBadKind /\
   unm pf0 20 default_opts [] TAny (GAny None) [T KTypeName (VStr [80]); T KInt (VI WNat 1)]
     = Ok (GAny (Some (TInt WNat, GInt 1)), []).
-Proof. repeat split; vm_compute; reflexivity. Qed.
+Proof. split; [|split; [|split; [|split]]]; vm_compute; reflexivity. Qed.
 
 (* why the keys of the domain are ascending: a map stream with descending keys is accepted but
    comes back reordered, so it does not round trip *)
 Example any_unsorted_map_normalized :
   let ts := [T KMap VNone; T KInt (VI WNat 2); T KNil VNone; T KInt (VI WNat 1); T KNil VNone; T KMapEnd VNone] in
-  exists g, unm pf0 20 default_opts [] TAny (GAny None) ts = Ok (g, []) /\
-            marshal default_opts TAny g =
-              Ok [T KMap VNone; T KInt (VI WNat 1); T KNil VNone; T KInt (VI WNat 2); T KNil VNone; T KMapEnd VNone].
-Proof. eexists. split; vm_compute; reflexivity. Qed.
+  let g := GAny (Some (TMap TAny TAny, GMap false [(GAny (Some (TInt WNat, GInt 2)), GAny None);
+                                                  (GAny (Some (TInt WNat, GInt 1)), GAny None)])) in
+  unm pf0 20 default_opts [] TAny (GAny None) ts = Ok (g, []) /\
+  marshal default_opts TAny g =
+    Ok [T KMap VNone; T KInt (VI WNat 1); T KNil VNone; T KInt (VI WNat 2); T KNil VNone; T KMapEnd VNone].
+Proof. split; vm_compute; reflexivity. Qed.
 
 Definition AnyP_main_theorems :=
   (any_roundtrip, any_roundtrip_stable, any_unm, any_marshal,
